@@ -76,22 +76,30 @@ func coveredBefore(ev []srvEvent, k int, b uint64) bool {
 
 // skipSig: where did the client's requests jump over block b?
 func skipSig(ev []srvEvent, b uint64) string {
-	if coveredBefore(ev, len(ev), b) {
-		return "inside-successfully-fetched-range"
-	}
 	for k := range ev {
 		if isGL(ev[k]) && ev[k].From > b {
+			if coveredBefore(ev, k, b) {
+				break
+			}
 			return chainLabel(ev, k)
 		}
+	}
+	if coveredBefore(ev, len(ev), b) {
+		return "inside-successfully-fetched-range"
 	}
 	return "never-requested"
 }
 
-// rewindSig: which request went back to an already fetched block b?
+// rewindSig: which request went back to (or below) a position that had already been fetched, and covers block b?
 func rewindSig(ev []srvEvent, b uint64) string {
 	for k := range ev {
-		if isGL(ev[k]) && ev[k].From <= b && b <= ev[k].To && coveredBefore(ev, k, b) {
-			return chainLabel(ev, k)
+		if !isGL(ev[k]) || ev[k].From > b || b > ev[k].To {
+			continue
+		}
+		for j := 0; j < k; j++ {
+			if ev[j].Kind == evGLOK && ev[j].To >= ev[k].From {
+				return chainLabel(ev, k)
+			}
 		}
 	}
 	return "within-single-fetch"
